@@ -9,7 +9,9 @@ META = dict(
                 'counterexamples replayed un-instrumented',
     bounds=['2-4 sites typed ROADM/ILA/FUSED, 1-4 links with symbolic endpoints (incl. a dangling one) and distances, optional west '
             'distances', 'one A-M-B line with Eqpt rows (symbolic gains, ILA or ROADM in the middle)',
-            'one Service row: symbolic spacing, power, channel count, bandwidth, mode, route of <= 3 names, strictness, <= 2 disjoint entries'],
+            'one Service row: symbolic spacing, power, channel count, bandwidth, mode, route of <= 3 names, strictness, <= 2 disjoint entries',
+            'one Links row with each per-direction attribute filled in / empty / absent / symbolic real (0 included); one Eqpt row with every '
+            'west cell filled in, zero or absent (324 patterns)'],
     assumptions=['the binary .xls/.xlsx readers (xlrd/openpyxl) and cell typing are outside the technique: rows are given in memory through '
                  'generic_open_workbook/get_sheet/parse_sheet', '"Not confirmed" = bounded bug hunting within the time box'],
     stubs=['convert.generic_open_workbook, convert.get_sheet, convert.parse_sheet -> in-memory rows'],
